@@ -226,7 +226,15 @@ class Verifier:
                 val.fresh = fresh
             ctx.result = val
             for cl in k.ensures:
-                out.append(mk(cl.label, smt.lift(cl.fn(ctx)).z, "post"))
+                hz = []
+                if cl.hints is not None:
+                    for hi, h in enumerate(cl.hints(ctx)):
+                        z = smt.lift(h).z
+                        out.append(mk(f"{cl.label}/hint{hi}", z, "hint"))
+                        hz.append(z)
+                o = mk(cl.label, smt.lift(cl.fn(ctx)).z, "post")
+                o.pc = o.pc + hz  # each hint is proved separately (obligation above) before it is used
+                out.append(o)
             for lab, excs, cond in k.must_raise:
                 out.append(mk(lab, z3.Not(smt.lift(cond(ctx)).z), "must-raise", excs=list(excs)))
             if k.fresh_result and isinstance(val, SV):
@@ -239,6 +247,8 @@ class Verifier:
             else:
                 conds = [smt.lift(c(ctx)).z if c is not None else z3.BoolVal(True) for _, c in allowed]
                 out.append(mk(f"raises-{r.exc}-only-when-allowed", z3.Or(*conds), "raises", exc=r.exc))
+            for cl in k.exc_ensures:
+                out.append(mk(cl.label, smt.lift(cl.fn(ctx)).z, "exc-post", exc=r.exc))
         else:
             raise OutsideSubset(f"outcome {r.kind} at function end")
         return out
